@@ -1,12 +1,14 @@
 """C07 -- default reference resolution finds the unique matching object.
 
 (M)    spec/Nav.tla `Plain`: TLC builds every model of the carrier meta-model MM7
-       (abstract Base = Sub1 | Sub2, unrelated Other, reference holders with
-       single/list attributes and abstract/concrete targets, names from {x, y})
+       (abstract Base = Sub1 | Sub2, unrelated Other, Any = Base | Alt and
+       Alt = Any | Sub2 | Other forming a diamond and a cycle, reference holders
+       with single/list attributes and concrete/abstract targets, names {x, y})
        up to a bound and checks the four-outcome theorem, conformance and the
        load theorem in every state (MC_Nav.tla).
 (S->I) every enumerated model x every builtins subset of {x: Sub1, y: Other} is
-       rendered (list elements in a seeded order), loaded with
+       rendered (list elements in a seeded order; names written as ID, as INT with
+       x = 0, or as STRING with x = "", i.e. falsy names), loaded with
        metamodel_from_str(grammar, builtins=...), and the resolved targets
        (object identity by containment path / builtin identity) or the raised
        TextXSemanticError (kind, name, class, err_type) are compared with what
